@@ -102,7 +102,7 @@ pub fn run(ctx: &Ctx, ev: &mut Ev) {
     if ctx.want("enum") {
         let mut alpha: Vec<u32> = if th { SCALARS.to_vec() } else { SCALARS_SMALL.to_vec() }; alpha.push(0xD800); alpha.push(0x2603);
         let sp = EncSpace { encs: encoder_families(), alpha, maxlen: if tiny { 2 } else { 3 }, src16s: vec![false, true], vec_sinks: vec![false, true], repls: vec![true, false],
-            cap_offsets: vec![vec![0], vec![1], vec![2], vec![3], vec![5], vec![0, 10]], last_seps: vec![false, true], stride: if tiny { 53 } else if th { 2 } else { 2 }, fills: vec![0x44] };
+            cap_offsets: vec![vec![0], vec![1], vec![2], vec![3], vec![5], vec![0, 10]], last_seps: vec![false, true], stride: if tiny { 53 } else if th { 2 } else { 2 }, fills: vec![0x44], per_encoder: true };
         ev.note(format!("enum: {}", sp.describe()));
         enum_enc(ctx, ev, &sp, |case, _ng, ev| check(&mut drv, ev, case, true));
     }
